@@ -174,6 +174,61 @@ Proof.
   - cbn [fold_left]. apply IH. apply lstep_inv. assumption.
 Qed.
 
+(* ------------------------------------------------------------ order *)
+
+(* all envelopes sent by the pool, to whichever listener, oldest first *)
+Definition sent_all (log : list lentry) : list Z :=
+  rev (flat_map (fun e => match e with Sent _ ev => [ev] | _ => [] end) log).
+
+Definition quiet (o : lop) : bool :=
+  match o with LFail _ | LGarbage _ | LReap _ => false | _ => true end.
+
+Fixpoint iota (k : nat) : list Z :=
+  match k with O => [] | S j => iota j ++ [Z.of_nat j] end.
+
+Definition Ord (s : lpool) : Prop :=
+  exists k, l_next s = Z.of_nat k /\ sent_all (l_log s) ++ l_buf s = iota k.
+
+Lemma sent_all_cons_sent : forall i ev log, sent_all (Sent i ev :: log) = sent_all log ++ [ev].
+Proof. intros. unfold sent_all. cbn [flat_map]. rewrite rev_app_distr. cbn. reflexivity. Qed.
+
+Lemma sent_all_cons_acked : forall i ev log, sent_all (Acked i ev :: log) = sent_all log.
+Proof. intros. reflexivity. Qed.
+
+Lemma dispatch_loop_ord : forall fuel s, Ord s -> Ord (dispatch_loop fuel s).
+Proof.
+  induction fuel as [|f IH]; intros s H; [assumption|].
+  cbn [dispatch_loop]. destruct (l_buf s) as [|ev r] eqn:EB; [assumption|].
+  destruct (first_ready (l_ls s) 0) as [j|]; [|assumption].
+  apply IH. destruct H as [k [H1 H2]]. exists k. cbn [l_next l_log l_buf]. split; [assumption|].
+  rewrite sent_all_cons_sent, <- app_assoc. cbn [app]. rewrite EB in H2. exact H2.
+Qed.
+
+Lemma lstep_ord : forall s o, quiet o = true -> Ord s -> Ord (lstep s o).
+Proof.
+  intros s o Hq H. destruct o as [| |i|i|i|i|i]; try discriminate; cbn [lstep].
+  - destruct H as [k [H1 H2]]. exists (S k). cbn [l_next l_log l_buf]. split; [lia|].
+    rewrite app_assoc, H2, H1. reflexivity.
+  - apply dispatch_loop_ord. assumption.
+  - destruct (nth i (l_ls s) LDead); assumption.
+  - destruct (nth i (l_ls s) LDead); assumption.
+Qed.
+
+(* IN THE ORDER THE CHANGES HAPPENED: as long as no listener rejects, misbehaves
+   or dies, the pool sends the events in exactly the order they were raised, each
+   once, none skipped: what was sent followed by what is still buffered is 0, 1, 2 ... *)
+Theorem fifo_order : forall n l, forallb quiet l = true ->
+  exists k, l_next (lrun n l) = Z.of_nat k /\
+            sent_all (l_log (lrun n l)) ++ l_buf (lrun n l) = iota k.
+Proof.
+  intros n l. unfold lrun.
+  assert (O0 : Ord (mkL [] (repeat LAck n) 0 [])) by (exists O; split; reflexivity).
+  revert O0. generalize (mkL [] (repeat LAck n) 0 []). induction l as [|o r IH]; intros s H Hq.
+  - exact H.
+  - cbn [forallb] in Hq. apply andb_true_iff in Hq. destruct Hq as [Hq1 Hq2].
+    cbn [fold_left]. apply IH; [apply lstep_ord; assumption | assumption].
+Qed.
+
 Example listeners_example :
   let s := lrun 2 [LSayReady 0; LSayReady 1; LEmit; LEmit; LDispatch; LGarbage 0; LDispatch; LOk 1; LSayReady 1;
                    LDispatch; LOk 1; LSayReady 1; LReap 0; LDispatch; LEmit; LDispatch] in
